@@ -7,8 +7,8 @@ from contracts.lib import *  # noqa
 
 LEVEL = "other"
 MANIFEST_ENTRY = {
-    "text": "Range reads: for every parsed Range (offset, end) and share length, http_server.read_range reads exactly [offset, min(end, share_length)) through the share's own read function -- the bytes a direct read_share_data(offset, end-offset) returns -- with status 206 and Content-Range offset..min(end, length); an empty result (offset at or past the end, or offset >= end) is 204 No Content and nothing is read; a missing range end, another unit or several ranges are 416. The client side (http_client.read_share_chunk) asks for exactly [offset, offset+length), turns 204 into b'', refuses a Content-Range longer than asked or a body whose length differs from it, and otherwise returns the body unchanged. Read-test-write: HTTPServer.mutable_read_test_write hands slot_testv_and_readv_and_writev exactly the decoded request -- for each share the test vector (offset, size, b'eq', specimen) with the client's own size, the write vector (offset, data), the new length, and the read vector (offset, size) in order -- with the three secrets in the order (write enabler, renew, cancel), and returns the storage server's (success, data) unchanged; BadWriteEnablerError becomes 401.",
-    "note": "CBOR encoding/decoding, klein routing, treq, werkzeug's Range/Content-Range formatting and parsing are trusted libraries (stubbed). Chunked immutable uploads (write_share_data / completion detection), share listing and lease addition over HTTP are not under contract here (the storage-server side of them is C22-C25, the request authorisation C30). 'Same server state' follows because the HTTP server calls the same StorageServer methods; it is not separately proved.",
+    "text": "Range reads: for every parsed Range (offset, end) and share length, http_server.read_range reads exactly [offset, min(end, share_length)) through the share's own read function -- the bytes a direct read_share_data(offset, end-offset) returns -- with status 206 and Content-Range offset..min(end, length); an empty result (offset at or past the end, or offset >= end) is 204 No Content and nothing is read; a missing range end, another unit or several ranges are 416. The client side (http_client.read_share_chunk) asks for exactly [offset, offset+length), turns 204 into b'', refuses a Content-Range longer than asked or a body whose length differs from it, and otherwise returns the body unchanged. Read-test-write: HTTPServer.mutable_read_test_write hands slot_testv_and_readv_and_writev exactly the decoded request -- for each share the test vector (offset, size, b'eq', specimen) with the client's own size, the write vector (offset, data), the new length, and the read vector (offset, size) in order -- with the three secrets in the order (write enabler, renew, cancel), and returns the storage server's (success, data) unchanged; BadWriteEnablerError becomes 401. The client's read-test-write message (StorageClientMutables._read_test_write_chunks, run natively over a grid of vectors) carries exactly the caller's test vectors, write vectors, read vector and new_length -- 0 stays 0 and None stays None. Chunked uploads: UploadsInProgress keeps every other in-progress share of a storage index reachable (with its own upload secret) when one share finishes or aborts, and drops the index entry with its last share.",
+    "note": "CBOR encoding/decoding, klein routing, treq, werkzeug's Range/Content-Range formatting and parsing are trusted libraries (stubbed). HTTPServer.write_share_data's Content-Range handling and completion detection, share listing and lease addition over HTTP are not under contract here (the storage-server side of them is C22-C25, the request authorisation C30). 'Same server state' follows because the HTTP server calls the same StorageServer methods; it is not separately proved.",
     "technique": "contract-based deductive verification (pyvc VCs + z3) of the marshalling functions with library stubs",
 }
 EXPLANATION = "The HTTP layer passes ranges and vectors to/from the storage server unchanged."
@@ -238,5 +238,141 @@ class ReadShareChunkClient(Spec):
         return [("canary", z3.BoolVal(out.kind != "return"))] if a["code"] == 206 else []
 
 
+class UploadsBookkeeping(Spec):
+    """UploadsInProgress: finishing (or aborting) one share of a storage index does not make the server forget the other
+    in-progress shares of that storage index; the index entry disappears with its last share"""
+    file = HS
+    qualname = "UploadsInProgress.remove_write_bucket"
+    level = "B"
+    bound = "two shares (numbers 1 and 2) of one storage index plus one share of another storage index"
+    cross_check = 0
+    canary_case = {"first": 1}
+
+    @property
+    def raises(self):
+        return (self.module()._HTTPError,)
+
+    def inputs(self):
+        return {"first": ChoiceK([1, 2]), "s1": BlobK(), "s2": BlobK()}
+
+    def all_cases(self):
+        return [{"first": 1}, {"first": 2}]
+
+    def config(self):
+        return {"overrides": {"hashutil.timing_safe_compare": lambda I, a, kw: a[0] is a[1]}}
+
+    def run(self, I, a):
+        M = self.module()
+        up = SObj(M.UploadsInProgress, {"_uploads": {}, "_bucketwriters": {}})
+        b = {1: stub("bucketwriter1"), 2: stub("bucketwriter2"), 9: stub("bucketwriter-other")}
+        sec = {1: a["s1"], 2: a["s2"]}
+        add = I.get_attr(up, "add_write_bucket")
+        I.call_value(add, [b"SI-A", 1, sec[1], b[1]], {})
+        I.call_value(add, [b"SI-A", 2, sec[2], b[2]], {})
+        I.call_value(add, [b"SI-B", 9, b"other-secret", b[9]], {})
+        first, second = a["first"], 3 - a["first"]
+        I.call_value(self.target(I), [up, b[first]], {})
+        res = {}
+        get = I.get_attr(up, "get_write_bucket")
+
+        def safe_get(*args):
+            try:
+                return I.call_value(get, list(args), {})
+            except PyRaise as pr:
+                return pr.exc.fields.get("code") if isinstance(pr.exc, SObj) else getattr(pr.exc, "code", repr(pr.exc))
+        res["other-share"] = safe_get(b"SI-A", second, sec[second])
+        res["other-index"] = safe_get(b"SI-B", 9, b"other-secret")
+        res["finished"] = safe_get(b"SI-A", first, sec[first])
+        try:
+            I.call_value(self.target(I), [up, b[second]], {})
+        except PyRaise as pr:
+            res["second-removal"] = repr(pr.cls)
+        res["index-after-last"] = b"SI-A" in [getattr(k, "v", k) for k in up.fields["_uploads"].keys()]
+        try:
+            I.call_value(self.target(I), [up, b[second]], {})         # a bucket that is no longer tracked is ignored
+        except PyRaise as pr:
+            res["untracked-removal"] = repr(pr.cls)
+        out = Outcome("return", res)
+        out.post = {"b": b, "second": second}
+        return out
+
+    def ensures(self, I, a, out):
+        r, b = out.value, out.post["b"]
+        return [("the-other-in-progress-share-of-the-same-storage-index-is-still-reachable", z3.BoolVal(r["other-share"] is b[out.post["second"]])),
+                ("uploads-of-other-storage-indexes-are-untouched", z3.BoolVal(r["other-index"] is b[9])),
+                ("the-finished-share-is-no-longer-an-upload-in-progress", z3.BoolVal(r["finished"] == 404)),
+                ("the-index-entry-goes-away-with-its-last-share", z3.BoolVal(r["index-after-last"] is False)),
+                ("removing-buckets-never-fails", z3.BoolVal("second-removal" not in r and "untracked-removal" not in r))]
+
+    def canary(self, I, a, out):
+        return [("canary", z3.BoolVal(out.value["finished"] != 404))]
+
+
+def rtw_client_failures():
+    """native: the CBOR message built by StorageClientMutables._read_test_write_chunks carries exactly the caller's vectors"""
+    import allmydata.storage.http_client as HCm
+    from twisted.web import http
+    bad = []
+    n = 0
+    for new_length in (None, 0, 1, 7, 2 ** 40):
+        for tests in ([], [(0, 3, b"abc")], [(5, 0, b""), (2 ** 33, 2, b"zz")]):
+            for writes in ([], [(0, b"data")], [(9, b""), (2 ** 34, b"x")]):
+                n += 1
+                sent = {}
+
+                class FakeResponse(object):
+                    code = http.OK
+
+                class FakeClient(object):
+                    def relative_url(self, path):
+                        return path
+
+                    async def request(self, method, url, **kw):
+                        sent.update(kw, method=method, url=url)
+                        return FakeResponse()
+
+                    async def decode_cbor(self, response, schema):
+                        return {"success": True, "data": {3: [b"r"]}}
+                m = HCm.StorageClientMutables(FakeClient())
+                twv = {3: HCm.TestWriteVectors(test_vectors=[HCm.TestVector(offset=o, size=s, specimen=sp) for (o, s, sp) in tests],
+                                               write_vectors=[HCm.WriteVector(offset=o, data=d) for (o, d) in writes], new_length=new_length)}
+                rv = [HCm.ReadVector(offset=1, size=2), HCm.ReadVector(offset=0, size=0)]
+                coro = m._read_test_write_chunks(b"s" * 16, b"W" * 32, b"R" * 32, b"C" * 32, twv, rv)
+                try:
+                    coro.send(None)
+                    result = "did not finish"
+                except StopIteration as e:
+                    result = e.value
+                except Exception as e:      # noqa
+                    result = repr(e)
+                msg = sent.get("message_to_serialize") or {}
+                v = (msg.get("test-write-vectors") or {}).get(3) or {}
+                ok = (isinstance(result, HCm.ReadTestWriteResult) and result.success is True and result.reads == {3: [b"r"]}
+                      and sent.get("write_enabler_secret") == b"W" * 32 and sent.get("lease_renew_secret") == b"R" * 32 and sent.get("lease_cancel_secret") == b"C" * 32
+                      and [(t["offset"], t["size"], t["specimen"]) for t in v.get("test", [])] == tests
+                      and [(w["offset"], w["data"]) for w in v.get("write", [])] == writes
+                      and "new-length" in v and v["new-length"] == new_length and (v["new-length"] is None) == (new_length is None) and type(v["new-length"]) is type(new_length)
+                      and [(r["offset"], r["size"]) for r in msg.get("read-vector", [])] == [(1, 2), (0, 0)])
+                if not ok:
+                    bad.append({"new_length": new_length, "tests": [list(t[:2]) for t in tests], "writes": [w[0] for w in writes], "sent_new_length": repr(v.get("new-length", "missing")), "result": repr(result)[:100]})
+    return bad, n
+
+
+def extra_checks(rep, tier):
+    bad, n = rtw_client_failures()
+    name = "ReadTestWriteClient:the-message-carries-exactly-the-callers-vectors-and-new-length"
+    rep.obligations += 1
+    rep.bounded_obligations += 1
+    rep.paths += n
+    rep.sym_paths += n
+    rep.bounds.append("client read-test-write message: new_length in {None, 0, 1, 7, 2**40} x 3 test-vector lists x 3 write-vector lists (%d messages, native)" % n)
+    if not bad:
+        rep.discharged += 1
+        rep.discharged_names.add(name)
+        return
+    rep.violations.append({"property": "C31", "contract": "ReadTestWriteClient", "obligation": name, "status": "runtime", "inputs": bad[0],
+                           "native_outcome": "%d of %d messages differ; first: %r" % (len(bad), n, bad[0]), "confirmed_on_real_code": True})
+
+
 def contracts(tier):
-    return [ReadRange(), ReadTestWriteServer(), ReadShareChunkClient()]
+    return [ReadRange(), ReadTestWriteServer(), ReadShareChunkClient(), UploadsBookkeeping()]
